@@ -136,6 +136,44 @@ theorem wE_api : ApiBuilt goExt (view wE 0) ∧ UriCanon goExt (view wE 0) := by
     simp only [List.mem_singleton] at hr; subst hr
     cases hu; decide
 
+/-- a header built through the API only: four references added and the second one removed, three read groups of
+which one is removed and one renamed, three programs -/
+def wM : World := run goExt {} [.h0, .sh 0 (str "1.6") 1 2,
+  .nr (str "a") { len := 10 }, .nr (str "b") { len := 20 }, .nr (str "c") { len := 30 }, .nr (str "d") { len := 40 },
+  .ar 0 0, .ar 0 1, .ar 0 2, .ar 0 3, .rr 0 1,
+  .ng (str "g1") {}, .ng (str "g2") {}, .ng (str "g3") {}, .ng (str "g4") {}, .ag 0 0, .ag 0 1, .ag 0 2, .ag 0 3,
+  .rg 0 0, .sg 2 (str "x"),
+  .np (str "p1") {}, .np (str "p2") {}, .np (str "p3") {}, .ap 0 0, .ap 0 1, .ap 0 2]
+
+set_option maxRecDepth 100000 in
+theorem wM_view : view wM 0 =
+    ⟨{ version := str "1.6", so := 1, go := 2 },
+     [(0, str "a", { len := 10 }), (1, str "c", { len := 30 }), (2, str "d", { len := 40 })],
+     [(0, str "g2", {}), (1, str "x", {}), (2, str "g4", {})],
+     [(0, str "p1", {}), (1, str "p2", {}), (2, str "p3", {})]⟩ := by rfl
+
+theorem wM_api : ApiBuilt goExt (view wM 0) ∧ UriCanon goExt (view wM 0) := by
+  rw [wM_view]
+  refine ⟨⟨⟨(fun h => nomatch h), (by decide), (by decide), (by decide), wfOther_nil _, rfl, forall_nil⟩, ?_, ?_, ?_⟩, ?_⟩
+  · intro r hr
+    simp only [List.mem_cons, List.not_mem_nil, or_false] at hr
+    rcases hr with rfl | rfl | rfl <;>
+      exact ⟨(by decide), (by decide), Or.inl rfl, (by decide), (by decide), (fun p u h => nomatch h), wfOther_nil _⟩
+  · intro r hr
+    simp only [List.mem_cons, List.not_mem_nil, or_false] at hr
+    rcases hr with rfl | rfl | rfl <;>
+      exact ⟨(by decide), (by decide), (by decide), Or.inl rfl, (by decide), (by decide), (by decide), (by decide),
+        (by decide), (by decide), (by decide), (by decide), wfOther_nil _⟩
+  · intro r hr
+    simp only [List.mem_cons, List.not_mem_nil, or_false] at hr
+    rcases hr with rfl | rfl | rfl <;>
+      exact ⟨(by decide), (by decide), (by decide), (by decide), (by decide), wfOther_nil _⟩
+  · intro r hr p u hu
+    simp only [List.mem_cons, List.not_mem_nil, or_false] at hr
+    rcases hr with rfl | rfl | rfl <;> cases hu
+
+theorem wM_inv : WInv wM := winv_run goExt _ {} winv_empty
+
 theorem wE_inv : WInv wE := winv_run goExt _ {} winv_empty
 
 end Hts.Model.Header
